@@ -23,17 +23,72 @@
 
 namespace internal {
 
+// Exact remainder of |x| / |y| by binary long division: r starts as |x| and a = |y| * 2^k is
+// subtracted for k going down to 0 whenever r >= a. Every step is exact: a is an exact scaling
+// of |y|, and r - a is computed only when a <= r < 2a (Sterbenz). On return 0 <= r < |y| and
+// |x| - r is an integer multiple of |y|; odd tells whether that integer is odd.
+// Requires finite x, finite non-zero y and |x| >= |y|.
+template <typename T>
+constexpr auto fmod_exact(T const ax, T const ay, bool& odd) noexcept -> T
+{
+    T r = ax;
+    T a = ay;
+    while (a <= r * T(0.5)) {
+        a = a + a;
+    }
+    for (;;) {
+        bool const sub = r >= a;
+        if (sub) {
+            r = r - a;
+        }
+        if (a == ay) {
+            odd = sub;
+            return r;
+        }
+        a = a * T(0.5);
+    }
+}
+
 template <typename T>
 constexpr auto fmod_check(T const x, T const y) noexcept -> T
 {
-    return ( // NaN check
-        any_nan(x, y) ? etl::numeric_limits<T>::quiet_NaN() :
-                      // +/- infinite
-            !all_finite(x, y) ? etl::numeric_limits<T>::quiet_NaN()
-                              :
-                              // else
-            x - trunc(x / y) * y
-    );
+    // NaN operands, infinite x, zero y: invalid
+    if (any_nan(x, y) || !is_finite(x) || y == T(0)) {
+        return etl::numeric_limits<T>::quiet_NaN();
+    }
+    T const ax = abs(x);
+    T const ay = abs(y);
+    // infinite y, or |x| < |y|: x itself (with its sign, also for zeros)
+    if (!(ax >= ay)) {
+        return x;
+    }
+    bool odd   = false;
+    T const r  = fmod_exact(ax, ay, odd);
+    // the result has the sign of x, also when it is zero
+    return x < T(0) ? -r : r;
+}
+
+// IEC 60559 remainder: x - n y with n the integer nearest to x / y, ties to even
+template <typename T>
+constexpr auto remainder_check(T const x, T const y) noexcept -> T
+{
+    if (any_nan(x, y) || !is_finite(x) || y == T(0)) {
+        return etl::numeric_limits<T>::quiet_NaN();
+    }
+    if (!is_finite(y)) {
+        return x;
+    }
+    T const ax = abs(x);
+    T const ay = abs(y);
+    bool odd   = false;
+    T r        = ax >= ay ? fmod_exact(ax, ay, odd) : ax;
+    // r > |y| / 2, or r == |y| / 2 with an odd quotient: one more subtraction (exact: |y|/2 <= r < |y|).
+    // The comparison of r with |y| - r has the sign of 2r - |y| even when |y| - r is rounded.
+    T const u = ay - r;
+    if (r > u || (r == u && odd)) {
+        r = r - ay;
+    }
+    return x < T(0) ? -r : r;
 }
 
 template <typename T1, typename T2, typename TC = common_return_t<T1, T2>>
@@ -42,20 +97,36 @@ constexpr auto fmod_type_check(const T1 x, const T2 y) noexcept -> TC
     return fmod_check(static_cast<TC>(x), static_cast<TC>(y));
 }
 
+template <typename T1, typename T2, typename TC = common_return_t<T1, T2>>
+constexpr auto remainder_type_check(const T1 x, const T2 y) noexcept -> TC
+{
+    return remainder_check(static_cast<TC>(x), static_cast<TC>(y));
+}
+
 } // namespace internal
 
 /**
  * Compile-time remainder of division function
  * @param x a real-valued input.
  * @param y a real-valued input.
- * @return computes the floating-point remainder of \f$ x / y \f$ (rounded
- * towards zero) using \f[ \text{fmod}(x,y) = x - \text{trunc}(x/y) \times y \f]
+ * @return computes the floating-point remainder of \f$ x / y \f$ (rounded towards zero) using \f[
+ * \text{fmod}(x,y) = x - \text{trunc}(x/y) \times y \f], exactly.
  */
 
 template <typename T1, typename T2>
 constexpr auto fmod(const T1 x, const T2 y) noexcept -> common_return_t<T1, T2>
 {
     return internal::fmod_type_check(x, y);
+}
+
+/**
+ * Compile-time IEEE remainder (quotient rounded to nearest, ties to even), exact.
+ */
+
+template <typename T1, typename T2>
+constexpr auto remainder(const T1 x, const T2 y) noexcept -> common_return_t<T1, T2>
+{
+    return internal::remainder_type_check(x, y);
 }
 
 #endif
